@@ -250,7 +250,8 @@ ENC_MACROS = VIEW_MACROS + [
     Macro("cntAt", ["a"], "Cnt(continuum)[Kseq(continuum)[a]]"),
     Macro("row_ok", ["row", "a", "j"],
           "row[0] == unitAt(a, j).s and row[1] == unitAt(a, j).e and row[2] == unitAt(a, j).e - unitAt(a, j).s and "
-          "row[3] == catidx()[unitAt(a, j).lab]"),
+          "row[3] == ite(unitAt(a, j).haslab, catidx()[unitAt(a, j).lab], catn())"),
+    Macro("catn", [], "ite(isnone(self.categories), Ncat(continuum), size(self.categories))"),
 ]
 
 contract(F + "AbstractDissimilarity._build_arrays_continuum",
